@@ -97,6 +97,7 @@ def _case(draw, tier):
             "mesh": mesh,
             "fperm_seed": draw(st.integers(0, 2**16)),
             "radius": draw(st.sampled_from([None, None, 2.5, 6371229.0])),
+            "float32_source": draw(st.sampled_from([False, False, True])),
             "rule": draw(st.sampled_from(RULES)),
         }
     face = draw(facegen.convex_face(max_class=3, tiny=True))
@@ -342,6 +343,18 @@ def _run_mesh(case, ctx):
             if a_u.shape != a_s.shape or not np.allclose(a_s, a_u, rtol=1e-10, atol=1e-15):
                 i = int(np.argmax(np.abs(a_s - a_u))) if a_u.shape == a_s.shape else 0
                 fails.append(Failure("radius_invariant", f"latlon={latlon}", "differs", f"{rule}:{o} face {i}: {a_s[i] if a_u.shape == a_s.shape else a_s.shape!r} with node_x/y/z at radius {case['radius']}, {a_u[i] if a_u.shape == a_s.shape else a_u.shape!r} on the unit sphere"))
+                break
+    # a single-precision source of the same mesh: same areas as the double-precision grid of the points its stored
+    # values denote (Cartesian coordinates derived in single precision are only good to ~1e-7, hence the looser bound)
+    if case.get("float32_source"):
+        ctx.ev("single_precision_source")
+        m32 = dict(mesh, nodes=[[float(np.float32(a)), float(np.float32(b))] for a, b in mesh["nodes"]])
+        g64, g32 = build.grid_from_mesh(m32), build.grid_from_mesh(m32, coord_dtype="float32")
+        for latlon, rt in ((True, 1e-9), (False, 1e-4)):
+            a_u = np.asarray(g64.compute_face_areas(quadrature_rule=rule, order=o, latlon=latlon)[0], float)
+            a_s = np.asarray(g32.compute_face_areas(quadrature_rule=rule, order=o, latlon=latlon)[0], float)
+            if a_u.shape != a_s.shape or not np.allclose(a_s, a_u, rtol=rt, atol=1e-15):
+                fails.append(Failure("single_precision_source", f"latlon={latlon}", "differs", f"{rule}:{o}: float32 node_lon/node_lat give {a_s[:3]}, the same points in float64 {a_u[:3]}"))
                 break
     # tiling
     if ok.all():
